@@ -260,7 +260,20 @@ func genEnzyme(t *rapid.T) (refclone.Enzyme, bool) {
 				continue
 			}
 		}
-		return refclone.Enzyme{Name: "custom", Site: site, Skip: rapid.IntRange(0, 14).Draw(t, "skip"), OverhangLen: rapid.IntRange(1, 6).Draw(t, "overhang_len")}, false
+		e := refclone.Enzyme{Name: "custom", Site: site, Skip: rapid.IntRange(0, 14).Draw(t, "skip"), OverhangLen: rapid.IntRange(1, 6).Draw(t, "overhang_len")}
+		// one custom enzyme in four sits at a corner of the geometry: no skip, the longest skip, an overhang longer than
+		// site plus skip (the cut span reaches further than the site is long), a one-base overhang
+		switch rapid.IntRange(0, 15).Draw(t, "corner_geometry") {
+		case 0:
+			e.Skip = 0
+		case 1:
+			e.Skip, e.OverhangLen = 0, max(e.OverhangLen, min(6, len(site)+1))
+		case 2:
+			e.Skip = 14
+		case 3:
+			e.OverhangLen = 1
+		}
+		return e, false
 	}
 }
 
@@ -367,6 +380,55 @@ func gen(t *rapid.T) Case {
 var subLayouts = vk.Register(&vk.Sub[Case]{Name: "layouts", Gen: gen, Check: check, NonTrivial: nonTrivial, Labels: labels, Sample: sample})
 
 func TestSub_layouts(t *testing.T) { vk.RunRapid(t, subLayouts) }
+
+var subEnds = vk.Register(&vk.Sub[Case]{Name: "ends", Check: check, NonTrivial: nonTrivial, Labels: labels, Sample: sample})
+
+// TestSub_ends: two sites near the two ends of a short part, every small distance - the layouts on which a cut falls at, next
+// to or beyond the first or the last base of a linear part ("a linear part never yields a fragment needing bases beyond its
+// ends"), and on which the stored origin of a circular part falls inside or next to a site or cut span.
+func TestSub_ends(t *testing.T) {
+	enzymes := []refclone.Enzyme{refclone.BuiltIn["BsaI"], refclone.BuiltIn["BbsI"], refclone.BuiltIn["BtgZI"]}
+	for _, site := range []string{"CACC", "GAAGC"} {
+		for _, g := range [][2]int{{0, 6}, {0, 5}, {0, 1}, {1, 6}, {1, 4}, {2, 3}, {3, 6}, {5, 2}} {
+			enzymes = append(enzymes, refclone.Enzyme{Name: "custom", Site: site, Skip: g[0], OverhangLen: g[1]})
+		}
+	}
+	space := "3 built-in and 16 custom geometries (sites of 4 and 5 letters, skip 0..5, overhang 1..6) x two sites in each of the 4 orientation pairs x every leading, middle and trailing gap of 0..skip+overhang+2 letters (capped at 9 for the leading and trailing gap), linear; every 5th layout also circular at every rotation"
+	vk.RunEnum(t, subEnds, space, true, func(yield func(Case) bool) {
+		k := 0
+		for _, e := range enzymes {
+			reach := e.Skip + e.OverhangLen + 2
+			rs := ref.RevComp(e.Site)
+			for _, pair := range [][2]string{{e.Site, rs}, {rs, e.Site}, {e.Site, e.Site}, {rs, rs}} {
+				for g0 := 0; g0 <= min(reach, 9); g0++ {
+					for g1 := 0; g1 <= 2*reach; g1++ {
+						for g2 := 0; g2 <= min(reach, 9); g2++ {
+							k++
+							fill := vk.Fill(uint64(k)+vk.Seed(), g0+g1+g2, "ACGT")
+							seq := fill[:g0] + pair[0] + fill[g0:g0+g1] + pair[1] + fill[g0+g1:]
+							for len(seq) < 20 { // the domain starts at 20 bases: lengthen the middle
+								seq = seq[:g0+len(e.Site)] + "T" + seq[g0+len(e.Site):]
+							}
+							c := Case{Enzyme: e, ByName: e.Name != "custom" && k%2 == 0, Seq: seq}
+							if k%3 == 0 {
+								c.CaseMask = uint64(k) * 0x9E3779B97F4A7C15
+							}
+							if !yield(c) {
+								return
+							}
+							if k%5 == 0 {
+								c.Circular, c.AllRotations = true, true
+								if !yield(c) {
+									return
+								}
+							}
+						}
+					}
+				}
+			}
+		}
+	})
+}
 
 func TestReplay(t *testing.T) { vk.Replay(t) }
 
